@@ -617,7 +617,13 @@ func genRecurse(prop string, seed uint64, run int, tier string) *Scenario {
 					to = fmt.Sprintf("%s/mv%d", parent, id)
 				}
 				if !contains(ds, to) {
-					ops = append(ops, Op{K: OpRename, P: d, P2: to})
+					if g.chance(0.25) {
+						// two renames in a row, the reader not yet having seen the first
+						mid := fmt.Sprintf("%s/mid%d", parent, id)
+						ops = append(ops, Op{K: OpRename, P: d, P2: mid, NQ: true}, Op{K: OpRename, P: mid, P2: to})
+					} else {
+						ops = append(ops, Op{K: OpRename, P: d, P2: to})
+					}
 					var nd []string
 					for _, x := range ds {
 						if x == d {
